@@ -258,6 +258,10 @@ func buildStubs() map[string]stubFn {
 		in.opts.MapReverse = termArg(args[0]).C == 1
 		return nil
 	}
+	m["vsym.FreezeClock"] = func(in *Interp, fn *ssa.Function, args []Value) Value {
+		in.frozenClock = termArg(args[0])
+		return nil
+	}
 	m["vsym.SymbolicOnly"] = func(in *Interp, fn *ssa.Function, args []Value) Value {
 		in.res.SymbolicOnly = true
 		return in.ctx.True
@@ -664,6 +668,9 @@ func buildStubs() map[string]stubFn {
 		// Time{wall uint64, ext int64, loc *Location}; we keep unix nanoseconds in ext, wall = 0 marker
 		if in.initMode {
 			return &Agg{e: []Value{in.ctx.BVConst(0, 64), in.ctx.BVConst(1700000000000000000, 64), Ptr{}}}
+		}
+		if in.frozenClock != nil {
+			return &Agg{e: []Value{in.ctx.BVConst(0, 64), in.frozenClock, Ptr{}}}
 		}
 		t := in.freshEnv("time.Now", sym.BV(64))
 		if in.timeSeq != nil && !in.opts.ConcreteMode {
